@@ -23,3 +23,19 @@ func (this *RaftGroup) VerifCampaign() error { return this.raft.Campaign(this.ct
 
 func (this *RaftGroup) VerifStatus() etcdRaft.Status { return this.raft.Status() }
 func (this *RaftGroup) VerifId() uuid.UUID            { return this.id }
+
+// VerifStopAllGroups stops every raft group registered with this transport (teardown of a simulated node).
+func (this *RaftTransport) VerifStopAllGroups() {
+	this.groupsMu.RLock()
+	var gs []*RaftGroup
+	for _, g := range this.groups {
+		gs = append(gs, g)
+	}
+	this.groupsMu.RUnlock()
+	for _, g := range gs {
+		func() {
+			defer func() { recover() }()
+			g.Stop()
+		}()
+	}
+}
